@@ -23,6 +23,7 @@ ASSUMPTIONS = [
 BUDGET = {'quick': 120, 'thorough': 3000}
 EPS = 1e-6
 FINDING_B = 'C09-B-instances-survive-disappearance-without-deletion-mark'
+FINDING_P = 'C09-P-rematch-during-stopping-freezes-termination'
 REASONS = {'deleted': 'RESOURCE_DELETED', 'mismatch': 'FILTERS_MISMATCH', 'pause': 'OPERATOR_PAUSING', 'exit': 'OPERATOR_EXITING'}
 
 
@@ -254,7 +255,33 @@ def check(run, res, sc, livelock, t_stop):
                             res.known.append({'id': FINDING_B, 'msg': msg})
                         elif sim.world.now - t0 > 5.0:
                             res.fail('C09/D3-not-stopped', msg)
-                # staged termination of daemons that need cancellation
+                # staged termination: a daemon that ignores the flag must be cancelled once the backoff is over
+                for a in inst:
+                    if a.get('behaviour') == 'cancel' and a.get('cancel_seen') is None and h.get('cancellation_timeout') is not None:
+                        trig = [(t, k) for (t, k, who, tick) in triggers4 if (who in (None, hid)) and k in ('deleted', 'mismatch')
+                                and a['t0'] - EPS <= t and (tick is None or tick > a['seq'])]
+                        if trig:
+                            t_req = min(t for t, k in trig)
+                            need = (h.get('cancellation_backoff') or 0.0)
+                            # (finding B also covers a forced removal in the middle of the staged termination: after the DELETED
+                            #  event the object's memory is forgotten and nobody drives the remaining stages)
+                            gone_at = [t for (t, typ, rv, tick) in evs if typ == 'DELETED']
+                            orphaned = any(k == 'vanished' for (t, k, who, tick) in triggers4) or \
+                                any(t <= t_req + need + h['cancellation_timeout'] + EPS for t in gone_at)
+                            paused = any(p0 <= t_req + need + 1.0 and (p1 is None or p1 >= t_req) for (p0, p1) in pauses)
+                            if orphaned:
+                                res.known.append({'id': FINDING_B, 'msg': f'daemon {hid} of {uid} was asked to stop at {t_req}, then the object vanished without a deletion mark: the staged termination never continued'})
+                            elif not paused and sim.world.now > t_req + need + h['cancellation_timeout'] + 10.0 and (t_stop is None or t_stop > t_req + need + 1.0):
+                                rematched = any(t >= t_req - EPS and typ != 'DELETED' and vers.get(rv) is not None and matches(h, vers[rv]['body'])
+                                                and not vers[rv]['body']['metadata'].get('deletionTimestamp')
+                                                for (t, typ, rv, tick) in evs if t <= t_req + need + h['cancellation_timeout'] + EPS and t >= t_req)
+                                only_mismatch = sorted(trig)[0][1] == 'mismatch'
+                                if rematched and only_mismatch:
+                                    res.known.append({'id': FINDING_P, 'msg': f'daemon {hid} of {uid} was asked to stop at {t_req} (filters mismatch), the object matched again '
+                                                      f'before the backoff ({need}s) was over: the instance keeps running with its stop flag set, is never cancelled and never replaced'})
+                                    continue
+                                res.fail('C09/D3-never-cancelled', f'daemon {hid} of {uid} ignores the stop flag; asked to stop at {t_req} (backoff {need}, '
+                                         f'timeout {h["cancellation_timeout"]}) but it was never cancelled until {sim.world.now}')
                 for a in inst:
                     if a.get('behaviour') == 'cancel' and a.get('cancel_seen') is not None:
                         relevant = [t for (t, k, who) in triggers if (who in (None, hid)) and a['t0'] - EPS <= t <= a['cancel_seen'] + EPS and k != 'vanished']
